@@ -507,6 +507,21 @@ def install(prog):
     prog.exact['<log::Level as PartialOrd<log::LevelFilter>>::le'] = lambda it, m, a: False
     prog.exact['<LevelFilter as PartialOrd>::le'] = lambda it, m, a: False
 
+    # ---- explicit panics ---------------------------------------------------------------------
+    @M(r'(?:core::panicking::|std::rt::)?panic_fmt|(?:core::panicking::)?panic|(?:core::panicking::)?panic_explicit|(?:core::panicking::)?panic_display::<.*>|(?:std::rt::)?begin_panic::<.*>')
+    def _(it, m, a):
+        msg = 'explicit panic'
+        try:
+            if a and isinstance(a[0], (StrRef, StrObj)): msg = conc_str(as_str(it, a[0]).chars()) or msg
+            elif a and isinstance(a[0], FmtArgs):
+                out = []; render(it, a[0], out); msg = conc_str(out) or 'panic with a formatted message'
+        except Exception:
+            pass
+        raise Panic(msg, 'explicit')
+
+    @M(r'core::panicking::assert_failed::<.*>')
+    def _(it, m, a): raise Panic('assertion `left == right` failed', 'assert')
+
     # ---- Option / Result -------------------------------------------------------------------
     @M(r'Option::<.*>::unwrap')
     def _(it, m, a):
